@@ -163,8 +163,9 @@ pub(crate) fn decompress(x: &[u8], n: usize) -> Option<Vec<i16>> {
 
     // for all elements (last round is special due to bound checks)
     for _ in 0..n - 1 {
-        // early return if
-        if index + 8 >= bitvector.len() {
+        // early return if fewer than 10 bits remain: this coefficient needs at
+        // least 9 of them (and reads two bytes), and another coefficient follows
+        if index + 9 >= bitvector.len() {
             return None;
         }
 
